@@ -451,7 +451,16 @@ func genC14() *rapid.Generator[c14Case] {
 			case 1:
 				r.B = gen.Fill(t, rapid.SampledFrom([]int{1, 3, 5, 33, 100, 239}).Draw(t, "glen"), "garbage")
 				if c.V6 {
-					r.B = append([]byte{1, 0, 0, 0, 0, 1, 0, 200}, r.B...) // option overruns
+					switch rapid.IntRange(0, 4).Draw(t, "bad6") {
+					case 0: // a relay message cut inside its header
+						r.B = append([]byte{byte(rapid.SampledFrom([]int{12, 13}).Draw(t, "rtype")), 0}, r.B[:min(len(r.B), 30)]...)
+					case 1: // a relay message whose options overrun
+						r.B = append(append([]byte{12, 1}, make([]byte, 32)...), 0, 18, 0, 200, 'x')
+					case 2: // a relay message whose relayed message does not decode
+						r.B = append(append([]byte{12, 0}, make([]byte, 32)...), 0, 9, 0, 6, 1, 2, 3, 4, 0, 1)
+					default:
+						r.B = append([]byte{1, 0, 0, 0, 0, 1, 0, 200}, r.B...) // option overruns
+					}
 				} else if len(r.B) >= 240 {
 					r.B = r.B[:239]
 				}
